@@ -653,7 +653,10 @@ class C01(Prop):
     id = "C01"
     theorems = ["locateOne_spec", "locateOne_absent", "locateMany_found", "loc_list_spec", "loc_list_absent",
                 "perDim_spec", "stages_spec", "take_spec", "take_get", "take_list_labels",
-                "locateOne_tol_ok", "locateOne_tol_error", "locateOne_tol_inf", "locateOne_tol_exact", "loc_list_tol"]
+                "locateOne_tol_ok", "locateOne_tol_error", "locateOne_tol_inf", "locateOne_tol_exact", "loc_list_tol", "mode_loc", "mode_iloc", "mode_default", "mode_ix", "take_position_spec", "take_position_get",
+                "take_position_out_of_range", "take_tuple_pad", "take_tuple_too_long", "take_ellipsis", "take_dict_eq_tuple", "dictKey_mem",
+                "dictKey_not_mem", "take_dict_badkey", "take_axis_eq_tuple", "take_axis_badkey", "take_keepdims_spec", "take_keepdims_label",
+                "take_keepdims_none_counterexample", "take_mask_any_cfg", "mask_positions", "locateOne_tol_iff", "take_tol_spec"]
     rule = ("arrays of rank 0-4, sizes 0-4, int/float/str labels stored increasing/decreasing/shuffled; per-dimension "
             "index from {present scalar, absent scalar, list with repeats/empty/absent members, ndarray, mask, full "
             "slice, Ellipsis}; spellings a[...], take, take(axis=name|pos), dict by name/position, .loc, .sel, .nloc, "
